@@ -13,7 +13,7 @@ import itertools
 
 from ..models import multipart_gen as G
 from ..monitors import contracts
-from ..monitors.reach import Reach
+from ..monitors.reach import Reach, opt
 
 ID = "C01"
 RULE = (
@@ -239,11 +239,11 @@ def run(shard, rec, rng):
     reach = Reach(
         rec,
         {
-            "MultipartDecoder._parse_data": M.MultipartDecoder._parse_data,
-            "MultipartDecoder.next_event": vars(M.MultipartDecoder)["next_event"].__wrapped__,
-            "MultipartDecoder.last_newline": M.MultipartDecoder.last_newline,
-            "formparser._chunk_iter": FP._chunk_iter,
-            "MultiPartParser.parse": FP.MultiPartParser.parse,
+            "MultipartDecoder._parse_data": opt(lambda: M.MultipartDecoder._parse_data),
+            "MultipartDecoder.next_event": opt(lambda: vars(M.MultipartDecoder)["next_event"].__wrapped__),
+            "MultipartDecoder.last_newline": opt(lambda: M.MultipartDecoder.last_newline),
+            "formparser._chunk_iter": opt(lambda: FP._chunk_iter),
+            "MultiPartParser.parse": opt(lambda: FP.MultiPartParser.parse),
         },
     )
     cfg = TIERS[shard["_tier"]]
